@@ -2128,3 +2128,42 @@ def c12_lazy(threads, schedule=None):
                 out["failures"].append({"threads": n, "stagger": stagger, "second_use": str(r2)})
     out["failures"] = out["failures"][:6]
     return out
+
+
+def c12_autocorr_dask(tchunks, lead, nodata):
+    """autocorr through the accessor on a dask-backed cube (time chunked into `tchunks` blocks, y/x in 1-pixel .. full chunks) vs the
+    in-memory result: same values, dims, dtype."""
+    import xarray as xr
+    import dask
+    import hdc.algo  # noqa
+    rng = np.random.default_rng(12)
+    T = 12
+    nd = int(nodata) if -32768 <= int(nodata) <= 32767 else -9999
+    cube = rng.integers(0, 300, size=(T, 3, 4)).astype("int16")
+    cube[cube == nd] += 1
+    cube[rng.random(size=cube.shape) < 0.15] = nd
+    da = xr.DataArray(cube, dims=("time", "y", "x"), attrs={"nodata": nd})
+    if not lead:
+        da = da.transpose("y", "x", "time")
+    ref = da.hdc.algo.autocorr()
+    bad = []
+    tch = max(1, T // max(1, int(tchunks)))
+    for chunks in ({"time": tch, "y": 1, "x": 1}, {"time": tch, "y": 3, "x": 4}, {"time": tch, "y": 2, "x": 3}):
+        if not lead:
+            chunks = dict(chunks, time=-1)      # a chunked core dimension is refused by apply_ufunc: that is the documented behaviour
+        for sched in ("synchronous", "threads"):
+            try:
+                with dask.config.set(scheduler=sched):
+                    lazy = da.chunk(chunks).hdc.algo.autocorr()
+                    if str(lazy.dtype) != str(ref.dtype) or lazy.dims != ref.dims or lazy.shape != ref.shape:
+                        bad.append({"chunks": chunks, "lazy_result_declares": [str(lazy.dtype), list(lazy.dims), list(lazy.shape)],
+                                    "in_memory": [str(ref.dtype), list(ref.dims), list(ref.shape)]})
+                        continue
+                    got = lazy.compute()
+            except Exception as e:  # noqa
+                bad.append({"chunks": chunks, "scheduler": sched, "raised": f"{type(e).__name__}: {e}"[:160]})
+                continue
+            same = got.dims == ref.dims and str(got.dtype) == str(ref.dtype) and np.array_equal(np.asarray(got), np.asarray(ref), equal_nan=True)
+            if not same:
+                bad.append({"chunks": chunks, "scheduler": sched, "dims": list(got.dims), "dtype": str(got.dtype)})
+    return {"violates": bool(bad), "bad": bad[:4]}
